@@ -1,7 +1,7 @@
 #!/bin/bash
 # runs the repository's test suite (guard off = plain suite); exit 1 on any failure
 cd /repo || exit 2
-out=$(env -u GOTOOLCHAIN -u GOFLAGS -u GOPROXY -u GOSUMDB go test -mod=mod -vet=off -count=1 -timeout 25m ./... 2>&1)
+out=$(env -u GOTOOLCHAIN -u GOFLAGS -u GOPROXY -u GOSUMDB flock /tmp/nexus-test.lock go test -mod=mod -vet=off -count=1 -timeout 25m ./... 2>&1)
 echo "$out" | grep -E "^(ok|FAIL|---)" | grep -v "no test files"
 if echo "$out" | grep -q "^FAIL\|^--- FAIL\|panic:"; then echo "REPO TESTS FAILED"; exit 1; fi
 echo "REPO TESTS OK"
